@@ -30,6 +30,14 @@ def generate(tier, seed):
     n = 800 if tier == "quick" else 8000
     for k in range(n):
         cases.append({"kind": "built", "seed": "%d:b:%d" % (seed, k), "cost": 12})
+    # every fragment of the library (each ligand group type, DNA residues) next to real protein
+    from .. import fragments
+    reps = 2 if tier == "quick" else 30
+    k = 0
+    for rep in range(reps):
+        for f in sorted(fragments.FRAGMENTS) + ["dna:DA", "dna:DC", "dna:DG", "dna:DT"]:
+            cases.append({"kind": "fragment", "frag": f, "seed": "%d:f:%d" % (seed, k), "cost": 12})
+            k += 1
     return cases
 
 
@@ -172,6 +180,21 @@ def run_case(case, tier):
         recs = sources.repo_recs(case["file"])
         desc["file"] = case["file"]
         optset = case["optset"]
+    elif case["kind"] == "fragment":
+        from .. import fragments
+        recs = sources.random_small_structure(rng, 60, 500)
+        recs = [r for r in recs if r.raw is not None or r.alt in (" ", "A")]
+        for i, r in enumerate(recs):
+            if r.raw is None and r.alt != " ":
+                r = r.copy()
+                r.alt = " "
+                recs[i] = r
+        frag, expect, dist = fragments.place_near(recs, case["frag"], rng, dist_A=rng.uniform(3.0, 12.0), min_clear_A=3.0)
+        optset = rng.choice(("none", "none", "-i"))
+        if frag is not None:
+            recs = recs + ([pdbio.raw("TER")] if case["frag"].startswith("dna:") else []) + frag
+            desc["frag"] = case["frag"]
+            desc["declared"] = expect
     else:
         u = rng.random()
         if u < 0.6:
@@ -186,8 +209,9 @@ def run_case(case, tier):
                 r = r.copy()
                 r.alt = " "
                 recs[i] = r
-        recs = edit_layout(recs, rng, desc)
-        optset = None
+        if case["kind"] != "fragment":
+            recs = edit_layout(recs, rng, desc)
+            optset = None
     opts, optset, chains, tlist = pick_options(rng, recs, optset)
     text = pdbio.dump(recs)
     run = obs.run_single(text, opts)
@@ -200,6 +224,13 @@ def run_case(case, tier):
         before = len(viol)
         cen = census_mon.check(run, text, viol, counts, classes, chains=chains,
                                titrate_only=set(tlist) if tlist is not None else None)
+    if desc.get("declared") and run.rec:
+        conf = run.rec["confs"][run.rec["names"][0]]
+        got = {g["aid"][5]: g["type"] for g in conf["groups"] if g["aid"][2] == 900 and g["aid"][1] == "L"}
+        for a, t in desc["declared"].items():
+            counts["declared_types_checked"] = counts.get("declared_types_checked", 0) + 1
+            if got.get(a) != t:
+                viol.append({"cls": "fragment-type-not-reached", "msg": "fragment %s: atom %s typed %r, declared %s" % (desc["frag"], a, got.get(a), t)})
     nsites = nstarts = 0
     if cen:
         first = cen["models"].get(min(cen["models"])) if cen["models"] else []
@@ -229,4 +260,12 @@ def verdict(tier, counts, classes, nontrivial, results):
     for k in ("ASP", "GLU", "HIS", "CYS", "TYR", "LYS", "ARG", "N+", "C-"):
         if "site:" + k not in classes:
             reasons.append("site kind %s never seen" % k)
+    from .. import fragments
+    missing = [t for t in fragments.ALL_LIGAND_TYPES if "ligand:" + t not in classes]
+    if missing:
+        reasons.append("ligand group types never produced: %s" % ",".join(missing))
+    if "dna-custom-pka" not in classes:
+        reasons.append("no DNA residue with a custom model pKa seen")
+    if not any(c.startswith("ion:") for c in classes):
+        reasons.append("no ion seen")
     return reasons
